@@ -1,13 +1,17 @@
 //! BOUNDED Kani harnesses on the REAL `elect_sessions` (child module of ractor_cluster::node, cfg(kani) only).
 //! Candidate count is the bound (N = 2 quick, N = 3 thorough); every field of every candidate is symbolic;
-//! the name order is one of `<`, `>`, `==` (all three covered).
+//! the name order is one of `<`, `>`, `==` (all three covered), plus one mixed-case pair in both roles.
 use super::*;
 
 fn names(sel: u8) -> (&'static str, &'static str) {
-    match sel % 3 {
+    match sel % 5 {
         0 => ("a@h", "b@h"),
         1 => ("b@h", "a@h"),
-        _ => ("a@h", "a@h"),
+        2 => ("a@h", "a@h"),
+        // mixed case: byte order ('Z' < 'a') and case-folded order ('a' < 'z') disagree, so an endpoint that compares anything
+        // but the names as written is seen
+        3 => ("Z@h", "a@h"),
+        _ => ("a@h", "Z@h"),
     }
 }
 fn cand(id: u64) -> SessionElectionCandidate {
@@ -53,7 +57,7 @@ fn elect2_subset_nonempty_order_independent() {
 fn elect2_mirror_agreement() {
     let sel: u8 = kani::any();
     let (me, peer) = names(sel);
-    kani::assume(sel % 3 != 2); // two distinct nodes have distinct names
+    kani::assume(sel % 5 != 2); // two distinct nodes have distinct names
     let a = cand(1);
     let b = cand(2);
     kani::assume(a.connection_id.is_some() && b.connection_id.is_some() && a.connection_id != b.connection_id);
@@ -127,7 +131,7 @@ fn elect3_subset_nonempty_order_independent() {
 fn elect3_mirror_agreement() {
     let sel: u8 = kani::any();
     let (me, peer) = names(sel);
-    kani::assume(sel % 3 != 2);
+    kani::assume(sel % 5 != 2);
     let a = cand(1);
     let b = cand(2);
     let c = cand(3);
